@@ -395,8 +395,10 @@ impl Searcher {
         }
 
         // First thing to do is check the transposition table to see if we've
-        // searched this position to a greater depth than we're about to search now
-        if let Some(entry) = transpositions.find(state_hash) {
+        // searched this position to a greater depth than we're about to search now.
+        // Not at the root: its stored result was computed before the positions now in
+        // the history were recorded, and the history is only consulted below the root
+        if let Some(entry) = transpositions.find(state_hash).filter(|_| current_depth > 0) {
             let remaining_depth = max_depth - current_depth;
             let remaining_depth_in_transposition = entry.max_depth - entry.depth;
             if remaining_depth_in_transposition >= remaining_depth {
